@@ -100,44 +100,175 @@ theorem ext_roundtrip_idempotent (xs : List Ext) :
   · rw [List.map_map]
     exact List.map_congr_left (fun x _ => strip_strip x)
 
+/-! ## precision of the `vox_offset` field
+
+  The header FIELD is float32 in NIfTI-1 and int64 in NIfTI-2 (`Fmt.voxF32`, regenerated from the header dtype);
+  `Fmt.offRepr n` is the value read back after `n` was assigned, `Fmt.offFill m` what `write_to` leaves there
+  when it fills in the minimum offset `m` itself (repaired logic: never below `m`).  Every file-level theorem
+  below is about the STORED offset.  For an offset the library chooses nothing is assumed; for an explicit
+  offset the theorems speak about the stored value or assume the request exactly representable
+  (`fmt.Exact n`: every value of NIfTI-2; NIfTI-1 below 2^24 and multiples of 16 below 2^28 —
+  `offset_field_exact`).  The logic before the repair let a minimum ≥ 2^28 round DOWN into the last extension
+  (`offset_nifti1_f4_orig_counterexample`; reproduced on the real code with one 256 MiB extension). -/
+
+/-- which offsets the field holds exactly (generated `voxF32` flags); the stored value is 0 only for 0 -/
+theorem offset_field_exact :
+    (∀ n, nifti2.Exact n) ∧
+    (∀ n, n < 16777216 → nifti1.Exact n) ∧
+    (∀ n, n % 16 = 0 → n < 268435456 → nifti1.Exact n) ∧
+    (∀ (fmt : Fmt) n, fmt.offRepr n = 0 ↔ n = 0) :=
+  ⟨exact_of_int nifti2 rfl, exact_small nifti1, exact_mul16 nifti1, offRepr_eq_zero⟩
+
+example : nifti1.Exact 268435440 ∧ ¬ nifti1.Exact 268435856 ∧ nifti1.offRepr 16777217 = 16777216 := by decide
+
+/-- the offset the library fills in, for EVERY wanted value `m` and either field type: not below `m`, equal to
+    `m` when `m` is representable, a multiple of 16 when `m` is (float32 spacing is 1,2,4,8,16 below 2^28 and
+    a multiple of 32 above). -/
+theorem library_offset_ok (fmt : Fmt) (m : Nat) :
+    m ≤ fmt.offFill m ∧ (fmt.Exact m → fmt.offFill m = m) ∧ (m % 16 = 0 → fmt.offFill m % 16 = 0) :=
+  offFill_spec fmt m
+
+example : nifti1.offFill 268435856 = 268435872 ∧ nifti1.offRepr 268435856 = 268435840 ∧
+    nifti2.offFill 268435856 = 268435856 := by decide
+
+/-- the hypotheses under which the requested offset is the stored one for the two shipped formats:
+    NIfTI-2 — always; NIfTI-1 — requested offset below 2^24 or a multiple of 16 below 2^28, and (when the
+    offset is left to the library) `single_vox_offset + Σ sizes < 2^28`. -/
+theorem fits_shipped (xs : List Ext) (userOff : Nat) :
+    ((userOff = 0 ∨ (nifti2.singleOff : Int) + totalSize xs ≤ (userOff : Int)) →
+        Fits nifti2 xs userOff ∧
+        chosenOffset nifti2 xs userOff = (if userOff = 0 then (minOffset nifti2 xs).toNat else userOff)) ∧
+    ((userOff = 0 ∨ (nifti1.singleOff : Int) + totalSize xs ≤ (userOff : Int)) →
+      (userOff < 16777216 ∨ (userOff % 16 = 0 ∧ userOff < 268435456)) →
+      (userOff = 0 → (nifti1.singleOff : Int) + totalSize xs < 268435456) →
+        Fits nifti1 xs userOff ∧
+        chosenOffset nifti1 xs userOff = (if userOff = 0 then (minOffset nifti1 xs).toNat else userOff)) := by
+  constructor
+  · intro hoff
+    exact fits_of_exact nifti2 xs userOff hoff (exact_of_int nifti2 rfl _) (fun _ => exact_of_int nifti2 rfl _)
+  · intro hoff hu hm
+    refine fits_of_exact nifti1 xs userOff hoff ?_ ?_
+    · rcases hu with h | ⟨h16, h⟩
+      · exact exact_small nifti1 _ h
+      · exact exact_mul16 nifti1 _ h16 h
+    · intro h0
+      have hm' := hm h0
+      have hmod := totalSize_mod16 xs
+      have hnn := totalSize_nonneg xs
+      have hmin : minOffset nifti1 xs = (nifti1.singleOff : Int) + totalSize xs := rfl
+      have h352 : nifti1.singleOff % 16 = 0 := by decide
+      exact exact_mul16 nifti1 _ (by omega) (by omega)
+
+example : (0 = 0 ∨ (nifti1.singleOff : Int) + totalSize [⟨6, [104, 105]⟩] ≤ ((0 : Nat) : Int)) ∧
+    ((0 : Nat) < 16777216) ∧ ((nifti1.singleOff : Int) + totalSize [⟨6, [104, 105]⟩] < 268435456) := by decide
+
 /-! ## file level: single file -/
 
-/-- `offset_ok`.  With the offset left to the library (`vox_offset` field 0) a save succeeds, the offset written
-    is `single_vox_offset + Σ get_sizeondisk`, a multiple of 16, and not less than header block + 4-byte
-    extender + the bytes of all extension records. -/
+/-- `offset_ok`.  With the offset left to the library (`vox_offset` field 0) a save succeeds for EVERY list of
+    valid extensions, in either format; the offset written is not below `single_vox_offset + Σ get_sizeondisk`
+    (and equal to it whenever that is representable in the field: always for NIfTI-2, below 2^28 for NIfTI-1
+    — `offset_ok_shipped`), a multiple of 16, and not less than header block + 4-byte extender + the bytes of
+    all extension records. -/
 theorem offset_ok (fmt : Fmt) (e : Endian) (xs : List Ext) (data : List Nat) (hf : FmtOK fmt) (hok : AllOK xs)
     (hd : data ≠ []) :
     ∃ f bytes, writeSingle fmt e xs 0 data = .ok f ∧ serializeExts e xs = .ok bytes ∧
-      (f.voxOffset : Int) = (fmt.singleOff : Int) + totalSize xs ∧
+      (fmt.singleOff : Int) + totalSize xs ≤ (f.voxOffset : Int) ∧
+      (fmt.Exact (minOffset fmt xs).toNat → (f.voxOffset : Int) = (fmt.singleOff : Int) + totalSize xs) ∧
       f.voxOffset % 16 = 0 ∧
       fmt.hdrSize + 4 + bytes.length ≤ f.voxOffset := by
   obtain ⟨bytes, hser, hl⟩ := serializeExts_ok e xs hok
-  obtain ⟨hw, _, hroom⟩ := writeSingle_ok fmt e xs 0 bytes data hf hok hser hd (Or.inl rfl)
+  obtain ⟨hfit, hc⟩ := fits_of_request fmt xs 0 (Or.inl rfl)
+  obtain ⟨hw, hroom⟩ := writeSingle_ok fmt e xs 0 bytes data hf hok hser hd hfit
+  obtain ⟨hge, hex, h16⟩ := offFill_spec fmt (minOffset fmt xs).toNat
   have hnn := totalSize_nonneg xs
   have hm := totalSize_mod16 xs
-  have hc : chosenOffset fmt xs 0 = ((fmt.singleOff : Int) + totalSize xs).toNat := rfl
+  have hmin : minOffset fmt xs = (fmt.singleOff : Int) + totalSize xs := rfl
+  rw [if_pos rfl] at hc
   obtain ⟨_, hf2, hf3⟩ := hf
-  refine ⟨_, bytes, hw, hser, ?_, ?_, hroom⟩
-  · show ((chosenOffset fmt xs 0 : Nat) : Int) = _
+  refine ⟨_, bytes, hw, hser, ?_, ?_, ?_, hroom⟩
+  · show _ ≤ ((chosenOffset fmt xs 0 : Nat) : Int)
     rw [hc]; omega
+  · intro hx
+    show ((chosenOffset fmt xs 0 : Nat) : Int) = _
+    rw [hc, hex hx]; omega
   · show chosenOffset fmt xs 0 % 16 = 0
-    rw [hc]; omega
+    rw [hc]; exact h16 (by omega)
 
-example : FmtOK nifti1 ∧ AllOK [⟨6, [104, 105]⟩] ∧ ([7] : List Nat) ≠ [] := by decide
+example : FmtOK nifti1 ∧ AllOK [⟨6, [104, 105]⟩] ∧ ([7] : List Nat) ≠ [] ∧
+    nifti1.Exact (minOffset nifti1 [⟨6, [104, 105]⟩]).toNat := by decide
 
-/-- `small_offset_rejected`.  An explicit offset below `single_vox_offset + Σ sizes` is refused with
-    HeaderDataError — for ANY extension list (no validity guard needed: the check comes first). -/
-theorem small_offset_rejected (fmt : Fmt) (e : Endian) (xs : List Ext) (userOff : Nat) (data : List Nat)
-    (h0 : userOff ≠ 0) (hsmall : (userOff : Int) < (fmt.singleOff : Int) + totalSize xs) :
-    writeSingle fmt e xs userOff data = .error .headerData :=
-  writeSingle_small fmt e xs userOff data h0 hsmall
+/-- `offset_ok` with the EXACT offset for the two shipped formats: NIfTI-2 for EVERY list, NIfTI-1 for every
+    list with `352 + Σ sizes < 2^28`. -/
+theorem offset_ok_shipped (e : Endian) (xs : List Ext) (data : List Nat) (hok : AllOK xs) (hd : data ≠ []) :
+    (∃ f bytes, writeSingle nifti2 e xs 0 data = .ok f ∧ serializeExts e xs = .ok bytes ∧
+      (f.voxOffset : Int) = (nifti2.singleOff : Int) + totalSize xs ∧ f.voxOffset % 16 = 0 ∧
+      nifti2.hdrSize + 4 + bytes.length ≤ f.voxOffset) ∧
+    ((nifti1.singleOff : Int) + totalSize xs < 268435456 →
+      ∃ f bytes, writeSingle nifti1 e xs 0 data = .ok f ∧ serializeExts e xs = .ok bytes ∧
+      (f.voxOffset : Int) = (nifti1.singleOff : Int) + totalSize xs ∧ f.voxOffset % 16 = 0 ∧
+      nifti1.hdrSize + 4 + bytes.length ≤ f.voxOffset) := by
+  have hf : FmtOK nifti1 ∧ FmtOK nifti2 := by decide
+  constructor
+  · obtain ⟨f, bytes, hw, hs, _, hex, h16, hroom⟩ := offset_ok nifti2 e xs data hf.2 hok hd
+    exact ⟨f, bytes, hw, hs, hex (exact_of_int nifti2 rfl _), h16, hroom⟩
+  · intro hm
+    have hmod := totalSize_mod16 xs
+    have hnn := totalSize_nonneg xs
+    have hmin : minOffset nifti1 xs = (nifti1.singleOff : Int) + totalSize xs := rfl
+    have h352 : nifti1.singleOff % 16 = 0 := by decide
+    obtain ⟨f, bytes, hw, hs, _, hex, h16, hroom⟩ := offset_ok nifti1 e xs data hf.1 hok hd
+    exact ⟨f, bytes, hw, hs, hex (exact_mul16 nifti1 _ (by omega) (by omega)), h16, hroom⟩
 
-example : (367 : Nat) ≠ 0 ∧ ((367 : Nat) : Int) < (nifti1.singleOff : Int) + totalSize [⟨6, [104, 105]⟩] := by
+example : AllOK [⟨6, [104, 105]⟩] ∧ ([7] : List Nat) ≠ [] ∧
+    ((nifti1.singleOff : Int) + totalSize [⟨6, [104, 105]⟩] < 268435456) := by decide
+
+/-- The logic BEFORE the repair (`chooseOffsetTOrig`: assign the minimum to the field and use whatever it keeps)
+    on one extension of 268435488 content bytes (esize 268435504): the offset needed is 352 + 268435504 =
+    268435856, which is not a float32; the field kept 268435840, 16 bytes below the end of the extension
+    record (on the real code the save succeeded and the data overwrote the tail of the extension).  The repaired
+    rule stores 268435872, the next float32; NIfTI-2 stores the exact offset. -/
+theorem offset_nifti1_f4_orig_counterexample :
+    AllOK [⟨6, List.replicate 268435488 7⟩] ∧
+    totalSize [⟨6, List.replicate 268435488 7⟩] = 268435504 ∧
+    ¬ nifti1.Exact 268435856 ∧
+    chooseOffsetTOrig nifti1 (totalSize [⟨6, List.replicate 268435488 7⟩]) 0 = .ok 268435840 ∧
+    (268435840 : Int) < (nifti1.hdrSize : Int) + 4 + totalSize [⟨6, List.replicate 268435488 7⟩] ∧
+    chooseOffset nifti1 [⟨6, List.replicate 268435488 7⟩] 0 = .ok 268435872 ∧
+    chooseOffset nifti2 [⟨6, List.replicate 268435488 7⟩] 0 = .ok 268436048 := by
+  have hlen : (List.replicate 268435488 7 : List Nat).length = 268435488 := List.length_replicate ..
+  have hsz : sizeOnDisk 268435488 = 268435504 := by decide
+  have htot : totalSize [⟨6, List.replicate 268435488 7⟩] = 268435504 := by
+    simp only [totalSize, hlen, hsz]; decide
+  refine ⟨?_, htot, by decide, by rw [htot]; decide, by rw [htot]; decide, ?_, ?_⟩
+  · intro x hx
+    simp only [List.mem_singleton] at hx
+    subst hx
+    exact ⟨by decide, by show inInt32 (sizeOnDisk (List.replicate 268435488 7).length); rw [hlen, hsz]; decide⟩
+  · unfold chooseOffset; rw [htot]; decide
+  · unfold chooseOffset; rw [htot]; decide
+
+/-- `small_offset_rejected`.  An explicit offset whose stored value is below `single_vox_offset + Σ sizes` is
+    refused with HeaderDataError — for ANY extension list (no validity guard needed: the check comes first).
+    For an exactly representable request (`fmt.Exact userOff`: all of NIfTI-2, NIfTI-1 below 2^24 …) the stored
+    value is the requested one (second clause = the statement on the requested offset). -/
+theorem small_offset_rejected (fmt : Fmt) (e : Endian) (xs : List Ext) (userOff : Nat) (data : List Nat) :
+    (fmt.offRepr userOff ≠ 0 → (fmt.offRepr userOff : Int) < (fmt.singleOff : Int) + totalSize xs →
+      writeSingle fmt e xs userOff data = .error .headerData) ∧
+    (userOff ≠ 0 → fmt.Exact userOff → (userOff : Int) < (fmt.singleOff : Int) + totalSize xs →
+      writeSingle fmt e xs userOff data = .error .headerData) := by
+  refine ⟨fun h0 hs => writeSingle_small fmt e xs userOff data h0 hs, fun h0 hx hs => ?_⟩
+  unfold Fmt.Exact at hx
+  exact writeSingle_small fmt e xs userOff data (by rw [hx]; exact h0) (by rw [hx]; exact hs)
+
+example : (367 : Nat) ≠ 0 ∧ nifti1.Exact 367 ∧
+    ((367 : Nat) : Int) < (nifti1.singleOff : Int) + totalSize [⟨6, [104, 105]⟩] := by
   decide
 
-/-- `no_overlap`.  WHATEVER offset the user asked for: if a single-file save succeeds, the data start at or
-    after the end of the last extension record, and the bytes after the header block are exactly
-    extender ++ records ++ zero gap ++ data — no byte of an extension is overwritten by data. -/
+/-- `no_overlap`.  WHATEVER offset the user asked for, EVERY list, either format: if a single-file save
+    succeeds, the data start at or after the end of the last extension record, and the bytes after the header
+    block are exactly extender ++ records ++ zero gap ++ data — no byte of an extension is overwritten by data.
+    (`f.voxOffset` is the stored offset; for the pre-repair rule this failed — see
+    `offset_nifti1_f4_orig_counterexample`.) -/
 theorem no_overlap (fmt : Fmt) (e : Endian) (xs : List Ext) (userOff : Nat) (data : List Nat) (f : HFile)
     (hf : FmtOK fmt) (hok : AllOK xs) (hd : data ≠ []) (hw : writeSingle fmt e xs userOff data = .ok f) :
     ∃ bytes, serializeExts e xs = .ok bytes ∧
@@ -146,46 +277,106 @@ theorem no_overlap (fmt : Fmt) (e : Endian) (xs : List Ext) (userOff : Nat) (dat
                   zeros (f.voxOffset - (fmt.hdrSize + 4 + bytes.length)) ++ data := by
   obtain ⟨bytes, hser, hl⟩ := serializeExts_ok e xs hok
   refine ⟨bytes, hser, ?_⟩
-  by_cases hoff : userOff = 0 ∨ minOffset fmt xs ≤ (userOff : Int)
-  · obtain ⟨hw', _, hroom⟩ := writeSingle_ok fmt e xs userOff bytes data hf hok hser hd hoff
+  by_cases hfit : Fits fmt xs userOff
+  · obtain ⟨hw', hroom⟩ := writeSingle_ok fmt e xs userOff bytes data hf hok hser hd hfit
     rw [hw'] at hw
     cases hw
     exact ⟨hroom, rfl⟩
-  · have h0 : userOff ≠ 0 := fun h => hoff (Or.inl h)
-    have hs : (userOff : Int) < minOffset fmt xs := by omega
-    rw [writeSingle_small fmt e xs userOff data h0 hs] at hw
-    cases hw
+  · exfalso
+    by_cases h0 : fmt.offRepr userOff = 0
+    · exact hfit (fits_library fmt xs userOff h0)
+    · have hs : (fmt.offRepr userOff : Int) < minOffset fmt xs := by
+        unfold Fits chosenOffset at hfit
+        rw [if_neg h0] at hfit
+        omega
+      rw [writeSingle_small fmt e xs userOff data h0 hs] at hw
+      cases hw
 
 example : writeSingle nifti1 .le [⟨6, [104, 105]⟩] 400 [7] =
     .ok ⟨400, [1, 0, 0, 0, 16, 0, 0, 0, 6, 0, 0, 0, 104, 105, 0, 0, 0, 0, 0, 0] ++ zeros 32 ++ [7]⟩ := by decide
 
-/-- `single_roundtrip`.  Save then load of a single file, offset chosen by the library (`userOff = 0`) or any
-    explicit offset not below the minimum: the load returns the extensions saved (contents up to trailing
-    NULs, same order, same codes), `dataobj.offset` is the offset written, and the data bytes are the ones saved. -/
-theorem single_roundtrip (fmt : Fmt) (e : Endian) (xs : List Ext) (userOff : Nat) (data : List Nat)
-    (hf : FmtOK fmt) (hok : AllOK xs) (hd : data ≠ [])
-    (hoff : userOff = 0 ∨ (fmt.singleOff : Int) + totalSize xs ≤ (userOff : Int)) :
+example : writeSingle nifti2 .be [⟨6, [104, 105]⟩] 0 [7] =
+    .ok ⟨560, [1, 0, 0, 0, 0, 0, 0, 16, 0, 0, 0, 6, 104, 105, 0, 0, 0, 0, 0, 0, 7]⟩ := by decide
+
+/-- `single_roundtrip`, stated on the STORED offset.  Save then load of a single file whose stored offset leaves
+    room (`Fits`: library-chosen or explicit, exact or rounded UP): the load returns the extensions saved
+    (contents up to trailing NULs, same order, same codes), `dataobj.offset` is the offset stored, and the data
+    bytes are the ones saved. -/
+theorem single_roundtrip_stored (fmt : Fmt) (e : Endian) (xs : List Ext) (userOff : Nat) (data : List Nat)
+    (hf : FmtOK fmt) (hok : AllOK xs) (hd : data ≠ []) (hfit : Fits fmt xs userOff) :
     ∃ f, writeSingle fmt e xs userOff data = .ok f ∧
-      (f.voxOffset : Int) = (if userOff = 0 then (fmt.singleOff : Int) + totalSize xs else (userOff : Int)) ∧
+      f.voxOffset = chosenOffset fmt xs userOff ∧
       readSingle fmt e f data.length = .ok ⟨xs.map Ext.strip, f.voxOffset, data⟩ := by
   obtain ⟨bytes, hser, hl⟩ := serializeExts_ok e xs hok
-  obtain ⟨hw, hmin, hroom⟩ := writeSingle_ok fmt e xs userOff bytes data hf hok hser hd hoff
-  have hnn := totalSize_nonneg xs
-  refine ⟨_, hw, ?_, ?_⟩
-  · show ((chosenOffset fmt xs userOff : Nat) : Int) = _
-    unfold chosenOffset minOffset
-    split <;> omega
-  · exact readSingle_layout fmt e xs bytes data _ hf hok hser hmin
+  obtain ⟨hw, hroom⟩ := writeSingle_ok fmt e xs userOff bytes data hf hok hser hd hfit
+  exact ⟨_, hw, rfl, readSingle_layout fmt e xs bytes data _ hf hok hser hfit⟩
+
+example : FmtOK nifti1 ∧ Fits nifti1 [⟨6, [104, 105]⟩] 16777217 ∧ chosenOffset nifti1 [⟨6, [104, 105]⟩] 16777217 = 16777216 := by
+  decide
+
+/-- `single_roundtrip`.  Offset left to the library (`userOff = 0`: EVERY list, either format) or an explicit,
+    exactly representable offset not below the minimum: the offset written is what the library fills in
+    (`library_offset_ok`: ≥ minimum, = minimum when representable) resp. the requested one, and the file loads
+    with the extensions (up to trailing NULs), offset and data saved. -/
+theorem single_roundtrip (fmt : Fmt) (e : Endian) (xs : List Ext) (userOff : Nat) (data : List Nat)
+    (hf : FmtOK fmt) (hok : AllOK xs) (hd : data ≠ [])
+    (hoff : userOff = 0 ∨ ((fmt.singleOff : Int) + totalSize xs ≤ (userOff : Int) ∧ fmt.Exact userOff)) :
+    ∃ f, writeSingle fmt e xs userOff data = .ok f ∧
+      f.voxOffset = (if userOff = 0 then fmt.offFill (minOffset fmt xs).toNat else userOff) ∧
+      (fmt.singleOff : Int) + totalSize xs ≤ (f.voxOffset : Int) ∧
+      readSingle fmt e f data.length = .ok ⟨xs.map Ext.strip, f.voxOffset, data⟩ := by
+  obtain ⟨hfit, hc⟩ := fits_of_request fmt xs userOff hoff
+  obtain ⟨f, hw, hv, hr⟩ := single_roundtrip_stored fmt e xs userOff data hf hok hd hfit
+  refine ⟨f, hw, by rw [hv, hc], ?_, hr⟩
+  rw [hv]; exact hfit
 
 example : FmtOK nifti2 ∧ AllOK [⟨6, [104, 105, 0]⟩, ⟨-1, []⟩] ∧ ([7] : List Nat) ≠ [] ∧
-    ((nifti2.singleOff : Int) + totalSize [⟨6, [104, 105, 0]⟩, ⟨-1, []⟩] ≤ ((624 : Nat) : Int)) := by decide
+    ((nifti2.singleOff : Int) + totalSize [⟨6, [104, 105, 0]⟩, ⟨-1, []⟩] ≤ ((624 : Nat) : Int)) ∧
+    nifti2.Exact 624 := by decide
+
+/-- `single_roundtrip` for the shipped formats in terms of the REQUESTED offset only: NIfTI-2 unconditionally,
+    NIfTI-1 under the float32 bounds of `fits_shipped`. -/
+theorem single_roundtrip_shipped (e : Endian) (xs : List Ext) (userOff : Nat) (data : List Nat)
+    (hok : AllOK xs) (hd : data ≠ []) :
+    ((userOff = 0 ∨ (nifti2.singleOff : Int) + totalSize xs ≤ (userOff : Int)) →
+      ∃ f, writeSingle nifti2 e xs userOff data = .ok f ∧
+        (f.voxOffset : Int) = (if userOff = 0 then (nifti2.singleOff : Int) + totalSize xs else (userOff : Int)) ∧
+        readSingle nifti2 e f data.length = .ok ⟨xs.map Ext.strip, f.voxOffset, data⟩) ∧
+    ((userOff = 0 ∨ (nifti1.singleOff : Int) + totalSize xs ≤ (userOff : Int)) →
+      (userOff < 16777216 ∨ (userOff % 16 = 0 ∧ userOff < 268435456)) →
+      (userOff = 0 → (nifti1.singleOff : Int) + totalSize xs < 268435456) →
+      ∃ f, writeSingle nifti1 e xs userOff data = .ok f ∧
+        (f.voxOffset : Int) = (if userOff = 0 then (nifti1.singleOff : Int) + totalSize xs else (userOff : Int)) ∧
+        readSingle nifti1 e f data.length = .ok ⟨xs.map Ext.strip, f.voxOffset, data⟩) := by
+  have hf : FmtOK nifti1 ∧ FmtOK nifti2 := by decide
+  have hnn := totalSize_nonneg xs
+  constructor
+  · intro hoff
+    obtain ⟨hfit, hc⟩ := (fits_shipped xs userOff).1 hoff
+    obtain ⟨f, hw, hv, hr⟩ := single_roundtrip_stored nifti2 e xs userOff data hf.2 hok hd hfit
+    have hmin : minOffset nifti2 xs = (nifti2.singleOff : Int) + totalSize xs := rfl
+    refine ⟨f, hw, ?_, hr⟩
+    rw [hv, hc]
+    split <;> omega
+  · intro hoff hu hm
+    obtain ⟨hfit, hc⟩ := (fits_shipped xs userOff).2 hoff hu hm
+    obtain ⟨f, hw, hv, hr⟩ := single_roundtrip_stored nifti1 e xs userOff data hf.1 hok hd hfit
+    have hmin : minOffset nifti1 xs = (nifti1.singleOff : Int) + totalSize xs := rfl
+    refine ⟨f, hw, ?_, hr⟩
+    rw [hv, hc]
+    split <;> omega
+
+example : AllOK [⟨6, [104, 105, 0]⟩] ∧ ([7] : List Nat) ≠ [] ∧
+    ((nifti1.singleOff : Int) + totalSize [⟨6, [104, 105, 0]⟩] ≤ ((400 : Nat) : Int)) ∧ (400 : Nat) < 16777216 := by
+  decide
 
 /-- `explicit_offset_roundtrip` (repaired logic).  At least one extension, explicit offset = minimum + a zero
-    gap of ANY length `g` (16, 32, … as well as lengths that are not multiples of 16): the file loads, with the
-    extensions and the data saved.  The pinned reader failed here for every `g ≥ 16`
-    (`ext_gap_orig_counterexample`). -/
+    gap of ANY length `g` (16, 32, … as well as lengths that are not multiples of 16), exactly representable in
+    the field: the file loads, with the extensions and the data saved.  The pinned reader failed here for every
+    `g ≥ 16` (`ext_gap_orig_counterexample`). -/
 theorem explicit_offset_roundtrip (fmt : Fmt) (e : Endian) (xs : List Ext) (g : Nat) (data : List Nat)
-    (hf : FmtOK fmt) (hok : AllOK xs) (hne : xs ≠ []) (hd : data ≠ []) :
+    (hf : FmtOK fmt) (hok : AllOK xs) (hne : xs ≠ []) (hd : data ≠ [])
+    (hx : fmt.Exact (fmt.singleOff + (totalSize xs).toNat + g)) :
     ∃ f, writeSingle fmt e xs (fmt.singleOff + (totalSize xs).toNat + g) data = .ok f ∧
       f.voxOffset = fmt.singleOff + (totalSize xs).toNat + g ∧
       readSingle fmt e f data.length = .ok ⟨xs.map Ext.strip, fmt.singleOff + (totalSize xs).toNat + g, data⟩ := by
@@ -197,46 +388,52 @@ theorem explicit_offset_roundtrip (fmt : Fmt) (e : Endian) (xs : List Ext) (g : 
         have := sizeOnDisk_ge16 x.content.length
         have := totalSize_nonneg xs
         simp only [totalSize]; omega
-  obtain ⟨f, hw, hv, hr⟩ := single_roundtrip fmt e xs (fmt.singleOff + (totalSize xs).toNat + g) data hf hok hd
-    (Or.inr (by omega))
+  obtain ⟨f, hw, hv, _, hr⟩ := single_roundtrip fmt e xs (fmt.singleOff + (totalSize xs).toNat + g) data hf hok hd
+    (Or.inr ⟨by omega, hx⟩)
   rw [if_neg (by omega)] at hv
-  have hv' : f.voxOffset = fmt.singleOff + (totalSize xs).toNat + g := by omega
-  exact ⟨f, hw, hv', by rw [hr, hv']⟩
+  exact ⟨f, hw, hv, by rw [hr, hv]⟩
 
-example : FmtOK nifti1 ∧ AllOK [⟨6, [104, 105]⟩] ∧ [(⟨6, [104, 105]⟩ : Ext)] ≠ [] := by decide
+example : FmtOK nifti1 ∧ AllOK [⟨6, [104, 105]⟩] ∧ [(⟨6, [104, 105]⟩ : Ext)] ≠ [] ∧
+    nifti1.Exact (nifti1.singleOff + (totalSize [⟨6, [104, 105]⟩]).toNat + 21) := by decide
 
 /-! ## file level: header/image pair -/
 
-/-- `pair_roundtrip`.  Pair images: extensions live in the header file and are read to its end; any data
-    offset the user sets in the image file is honoured; extensions and data read back. -/
+/-- `pair_roundtrip`.  Pair images: extensions live in the header file and are read to its end; the data offset
+    the user sets is honoured as STORED in the field (`fmt.offRepr userOff`; `= userOff` whenever exact — all of
+    NIfTI-2, NIfTI-1 below 2^24): the image file is that many zero bytes followed by the data; extensions and
+    data read back.  No exactness hypothesis is needed: writer and reader use the same stored value. -/
 theorem pair_roundtrip (fmt : Fmt) (e : Endian) (xs : List Ext) (userOff : Nat) (data : List Nat)
     (hok : AllOK xs) (hd : data ≠ []) :
-    ∃ p, writePair e xs userOff data = .ok p ∧ p.hdr.voxOffset = userOff ∧
-      p.img = zeros userOff ++ data ∧
-      readPair fmt e p data.length = .ok ⟨xs.map Ext.strip, userOff, data⟩ := by
+    ∃ p, writePair fmt e xs userOff data = .ok p ∧ p.hdr.voxOffset = fmt.offRepr userOff ∧
+      (fmt.Exact userOff → p.hdr.voxOffset = userOff) ∧
+      p.img = zeros (fmt.offRepr userOff) ++ data ∧
+      readPair fmt e p data.length = .ok ⟨xs.map Ext.strip, fmt.offRepr userOff, data⟩ := by
   obtain ⟨bytes, hser, hl⟩ := serializeExts_ok e xs hok
-  have himg : writeAt [] userOff data = zeros userOff ++ data := by
-    rw [writeAt_past [] data userOff (by simp) hd]; simp
-  have hdrop : List.drop userOff (zeros userOff ++ data) = data :=
+  generalize hu : fmt.offRepr userOff = u
+  have himg : writeAt [] u data = zeros u ++ data := by
+    rw [writeAt_past [] data u (by simp) hd]; simp
+  have hdrop : List.drop u (zeros u ++ data) = data :=
     List.drop_left' (by simp [zeros])
-  have hchk : chkOffset false fmt userOff = .ok () := by
+  have hchk : chkOffset false fmt u = .ok () := by
     unfold chkOffset
-    by_cases h0 : userOff = 0
+    by_cases h0 : u = 0
     · rw [if_pos h0]
     · rw [if_neg h0, if_neg (by simp)]
+  have hex : fmt.Exact userOff → u = userOff := fun h => by rw [← hu]; exact h
   unfold writePair extBlock
+  rw [hu]
   cases xs with
   | nil =>
       simp only [List.isEmpty_nil, if_true, map_ok]
-      refine ⟨_, rfl, rfl, himg, ?_⟩
+      refine ⟨_, rfl, rfl, hex, himg, ?_⟩
       unfold readPair
       simp only [hchk, bind_ok, himg, hdrop, readData_exact, map_ok]
       rfl
   | cons x xs =>
       simp only [List.isEmpty_cons, Bool.false_eq_true, if_false, hser, map_ok]
-      refine ⟨_, rfl, rfl, himg, ?_⟩
+      refine ⟨_, rfl, rfl, hex, himg, ?_⟩
       unfold readPair
-      have hexts : readExtsAfter false fmt e ⟨userOff, [1, 0, 0, 0] ++ bytes⟩ = .ok ((x :: xs).map Ext.strip) := by
+      have hexts : readExtsAfter false fmt e ⟨u, [1, 0, 0, 0] ++ bytes⟩ = .ok ((x :: xs).map Ext.strip) := by
         unfold readExtsAfter
         simp only [List.cons_append, List.nil_append, List.take_succ_cons, List.take_zero,
           List.drop_succ_cons, List.drop_zero]
@@ -245,33 +442,39 @@ theorem pair_roundtrip (fmt : Fmt) (e : Endian) (xs : List Ext) (userOff : Nat) 
         exact parseExts_eof e (x :: xs) bytes (-1) (by omega) hok hser
       simp only [hchk, bind_ok, hexts, himg, hdrop, readData_exact, map_ok]
 
-example : AllOK [⟨4, [1, 2, 3, 0, 0]⟩] ∧ ([9, 9] : List Nat) ≠ [] := by decide
+example : AllOK [⟨4, [1, 2, 3, 0, 0]⟩] ∧ ([9, 9] : List Nat) ≠ [] ∧ nifti1.Exact 20 := by decide
 
 /-! ## independence of the data from the extensions -/
 
 /-- `data_independent`.  Single files: whatever two extension lists are saved with the same data (offsets
-    library-chosen or explicit and large enough for the respective list), the bytes of the data region on disk
-    (from `vox_offset` to the end of the file) and the data loaded are the same — namely the data saved. -/
+    library-chosen — EVERY list — or explicit, exactly representable and large enough for the respective
+    list), the bytes of the data region on disk (from `vox_offset` to the end of the file) and the data loaded
+    are the same — namely the data saved. -/
 theorem data_independent (fmt : Fmt) (e₁ e₂ : Endian) (xs ys : List Ext) (o₁ o₂ : Nat) (data : List Nat)
     (hf : FmtOK fmt) (hx : AllOK xs) (hy : AllOK ys) (hd : data ≠ [])
-    (h₁ : o₁ = 0 ∨ (fmt.singleOff : Int) + totalSize xs ≤ (o₁ : Int))
-    (h₂ : o₂ = 0 ∨ (fmt.singleOff : Int) + totalSize ys ≤ (o₂ : Int)) :
+    (h₁ : o₁ = 0 ∨ ((fmt.singleOff : Int) + totalSize xs ≤ (o₁ : Int) ∧ fmt.Exact o₁))
+    (h₂ : o₂ = 0 ∨ ((fmt.singleOff : Int) + totalSize ys ≤ (o₂ : Int) ∧ fmt.Exact o₂)) :
     ∃ f₁ f₂ l₁ l₂, writeSingle fmt e₁ xs o₁ data = .ok f₁ ∧ writeSingle fmt e₂ ys o₂ data = .ok f₂ ∧
       readSingle fmt e₁ f₁ data.length = .ok l₁ ∧ readSingle fmt e₂ f₂ data.length = .ok l₂ ∧
       l₁.data = data ∧ l₂.data = data ∧
       f₁.after.drop (f₁.voxOffset - fmt.hdrSize) = data ∧ f₂.after.drop (f₂.voxOffset - fmt.hdrSize) = data := by
-  obtain ⟨f₁, hw₁, _, hr₁⟩ := single_roundtrip fmt e₁ xs o₁ data hf hx hd h₁
-  obtain ⟨f₂, hw₂, _, hr₂⟩ := single_roundtrip fmt e₂ ys o₂ data hf hy hd h₂
+  have h₁ := (fits_of_request fmt xs o₁ h₁).1
+  have h₂ := (fits_of_request fmt ys o₂ h₂).1
+  obtain ⟨f₁, hw₁, hv₁, hr₁⟩ := single_roundtrip_stored fmt e₁ xs o₁ data hf hx hd h₁
+  obtain ⟨f₂, hw₂, hv₂, hr₂⟩ := single_roundtrip_stored fmt e₂ ys o₂ data hf hy hd h₂
+  obtain ⟨b₁, hs₁, _⟩ := serializeExts_ok e₁ xs hx
+  obtain ⟨b₂, hs₂, _⟩ := serializeExts_ok e₂ ys hy
+  obtain ⟨hw₁', hroom₁⟩ := writeSingle_ok fmt e₁ xs o₁ b₁ data hf hx hs₁ hd h₁
+  obtain ⟨hw₂', hroom₂⟩ := writeSingle_ok fmt e₂ ys o₂ b₂ data hf hy hs₂ hd h₂
   refine ⟨f₁, f₂, _, _, hw₁, hw₂, hr₁, hr₂, rfl, rfl, ?_, ?_⟩
-  · obtain ⟨bytes, _, hle, hafter⟩ := no_overlap fmt e₁ xs o₁ data f₁ hf hx hd hw₁
-    rw [hafter]
-    exact List.drop_left' (by simp [zeros]; split <;> simp <;> omega)
-  · obtain ⟨bytes, _, hle, hafter⟩ := no_overlap fmt e₂ ys o₂ data f₂ hf hy hd hw₂
-    rw [hafter]
-    exact List.drop_left' (by simp [zeros]; split <;> simp <;> omega)
+  · rw [hw₁'] at hw₁; cases hw₁
+    exact List.drop_left' (by simp [zeros, extender_length]; omega)
+  · rw [hw₂'] at hw₂; cases hw₂
+    exact List.drop_left' (by simp [zeros, extender_length]; omega)
 
 example : FmtOK nifti1 ∧ AllOK [⟨6, [104, 105]⟩, ⟨32, [60, 0]⟩] ∧ AllOK [] ∧ ([1, 2] : List Nat) ≠ [] ∧
-    ((nifti1.singleOff : Int) + totalSize [⟨6, [104, 105]⟩, ⟨32, [60, 0]⟩] ≤ ((400 : Nat) : Int)) := by decide
+    ((nifti1.singleOff : Int) + totalSize [⟨6, [104, 105]⟩, ⟨32, [60, 0]⟩] ≤ ((400 : Nat) : Int)) ∧
+    nifti1.Exact 400 := by decide
 
 example : readSingle nifti1 .be ⟨400, [1, 0, 0, 0, 0, 0, 0, 16, 0, 0, 0, 6, 104, 105, 0, 0, 0, 0, 0, 0] ++ zeros 32 ++ [7]⟩ 1
     = .ok ⟨[⟨6, [104, 105]⟩], 400, [7]⟩ := by decide
@@ -279,11 +482,11 @@ example : readSingle nifti1 .be ⟨400, [1, 0, 0, 0, 0, 0, 0, 16, 0, 0, 0, 6, 10
 /-- the same for pairs: the image file does not depend on the extension list at all -/
 theorem data_independent_pair (fmt : Fmt) (e₁ e₂ : Endian) (xs ys : List Ext) (off : Nat) (data : List Nat)
     (hx : AllOK xs) (hy : AllOK ys) (hd : data ≠ []) :
-    ∃ p₁ p₂, writePair e₁ xs off data = .ok p₁ ∧ writePair e₂ ys off data = .ok p₂ ∧ p₁.img = p₂.img ∧
+    ∃ p₁ p₂, writePair fmt e₁ xs off data = .ok p₁ ∧ writePair fmt e₂ ys off data = .ok p₂ ∧ p₁.img = p₂.img ∧
       (readPair fmt e₁ p₁ data.length).map (·.data) = .ok data ∧
       (readPair fmt e₂ p₂ data.length).map (·.data) = .ok data := by
-  obtain ⟨p₁, hw₁, _, hi₁, hr₁⟩ := pair_roundtrip fmt e₁ xs off data hx hd
-  obtain ⟨p₂, hw₂, _, hi₂, hr₂⟩ := pair_roundtrip fmt e₂ ys off data hy hd
+  obtain ⟨p₁, hw₁, _, _, hi₁, hr₁⟩ := pair_roundtrip fmt e₁ xs off data hx hd
+  obtain ⟨p₂, hw₂, _, _, hi₂, hr₂⟩ := pair_roundtrip fmt e₂ ys off data hy hd
   exact ⟨p₁, p₂, hw₁, hw₂, by rw [hi₁, hi₂], by rw [hr₁]; rfl, by rw [hr₂]; rfl⟩
 
 example : AllOK [⟨4, [1]⟩] ∧ AllOK [⟨4, [1]⟩, ⟨-5, [0]⟩] ∧ ([1, 2] : List Nat) ≠ [] := by decide
